@@ -8,7 +8,7 @@ SPEC = {
     ],
     "rule": "(a) sequential histories: rapid draws call sequences over a pool of library objects (group elements/scalars of the 4 groups, Goldilocks points/scalars, BLS12-381 G1/G2/scalars incl. pairings, FourQ points, "
             "polynomial / secret-sharing objects, P-384 big-integer API) with deliberate aliasing (receiver = operand, equal operands, operands returned by constructors) and 'decode into a used object' steps; every call is replayed on fresh objects decoded "
-            "from the operands' model bytes, and after every step every pool object must serialise to its model and every constructor must return what it returned at process start; a table of 35 key types is decoded repeatedly into one object with uses in between and compared with a fresh decode. "
+            "from the operands' model bytes, and after every step every pool object must serialise to its model and every constructor must return what it returned at process start; a table of key types (typed keys of every family, and every KEM / signature scheme through its scheme-level decoders) is decoded repeatedly into one object with uses in between, the source buffer overwritten after each decode, and compared with a fresh decode; OPRF requests are evaluated and finalized twice in every suite and mode with operand snapshots around each call. "
             "(b) concurrency (-race build): per plan a freshly unmarshalled key / scheme / suite is used by 2..16 goroutines behind a barrier (sign, verify, encapsulate, decapsulate, Public(), HPKE setup/open, OPRF evaluate/finalize, threshold-RSA Sign, table-based multiplications, separately constructed generators); "
             "each result must equal the same call made alone on an independent copy and the race detector must stay silent; 8 cold-start scenarios run in fresh processes in which the first use of a package (hpke, group, oprf, bls, kem, sign, xof/expander, curves) is made by 16 goroutines at once, so that lazily initialised package-level data is hit at the only moment it can race. non-trivial = history with an aliased call, a decode into a used object, a use between two decodes, or a concurrent plan; distinct by FNV-64 of the history / (plan kind, trial)",
     "assumptions": COMMON_ASSUME + ["the harness does not own the Go scheduler: an interleaving that needs one precise preemption point may be missed; race reports are attributed to the first circl function of the report",
